@@ -2091,7 +2091,8 @@ def compare_parse(case, io, mo):
         for (key, nec, ndl), m in zip(FLAG_KEYS, mo):
             got = io[key]
             if "perr" in m:
-                if "ok" in got or (not wrapped and got.get("perr") != "TypeError"):
+                # cls.py:642-652 (ea05768): the TypeError of the unwrapping step surfaces as ParseError (a TypeError subclass)
+                if "ok" in got or (not wrapped and got.get("perr") not in ("TypeError", "ParseError")):
                     return f"dataclass input {key}: model raises TypeError, impl {got}"
                 continue
             if "instance" in m:
